@@ -24,7 +24,8 @@ def _enc(obj, out):
     elif isinstance(obj, np.ndarray):
         a = np.ascontiguousarray(obj)
         if a.dtype.kind in 'US':
-            a = np.char.strip(a.astype('U'))
+            # strings are compared exactly (padding included); only the storage width / bytes-vs-str is normalised
+            a = a.astype('U')
             out.append(b'AS' + repr(a.shape).encode() + '\x00'.join(a.ravel().tolist()).encode())
         elif a.dtype.kind == 'O':
             out.append(b'AO' + repr(a.shape).encode())
